@@ -1,19 +1,173 @@
-"""C07 / C09: hash-table node ownership, reclamation safety and resize (harness lfht_life.c)."""
+"""C07 / C09: hash-table node ownership, reclamation safety, resize and destroy (harness lfht_life.c).
+
+One harness, four modes (rounds of: create table -> pinned threads in five roles -> join -> quiescent checks ->
+empty -> destroy -> wait until the library handed the table back to the recording allocator):
+  own      2-8 contenders race del / replace / add_replace (+ add_unique, duplicate adds) on 1-3 hot keys, walkers in long
+           sections, optional explicit resizer / AUTO_RESIZE, neighbours churning the same buckets
+  resize   1-3 concurrent cds_lfht_resize() callers walking the request list, resident readers, updaters (chain growth,
+           node-counter swings), walkers, sometimes contenders
+  destroy  fill + drain by updaters that leave lazy resize work queued, destroy at once, wait for completion
+  big      tables of 2^15-2^17 buckets: partitioned multi-thread resize path
+"""
 from props import prop, case, H
 
 H('lfht_life', ['lfht_life.c'])
 
 
-def _c(name, flavor, variant, mode, prop_id, args, cpus=6, timeout=200):
-    return case(name, 'lfht_life', flavor, variant,
-                ['--cfg=%s' % name, '--mode=%s' % mode, '--prop=%s' % prop_id] + list(args), cpus=cpus, timeout=timeout)
+def _c(name, flavor, variant, mode, pid, args, cpus=6, timeout=240, scale=1):
+    a = ['--cfg=%s' % name, '--mode=%s' % mode, '--prop=%s' % pid] + list(args)
+    if variant == 'tsan':
+        a.append('--stall-ms=120000')
+    elif variant == 'asan':
+        a.append('--stall-ms=60000')
+    return case(name, 'lfht_life', flavor, variant, a, cpus=cpus, timeout=timeout * scale)
 
 
-@prop('C07', 'Hash table: removed node has one owner, unreachable after a grace period', 'exploration', 'tbd', [])
+C07_RULE = (
+    'one evaluation = one node life that left the table through cds_lfht_del()==0, cds_lfht_replace()==0 or by being returned '
+    'from cds_lfht_add_replace(): an atomic per-life counter is incremented at every such "obtained" result and must have been 0 '
+    '(two owners = violation at once; at quiescence every node that was added and is no longer found by a full traversal must '
+    'have exactly one owner, every node still found must have none; losers must get -ENOENT). The owner then waits '
+    'synchronize_rcu() or call_rcu() of the table\'s flavor and poisons + quarantines (canary on release), really frees '
+    '(asan/tsan) or unmaps (guard-page subset) the node; every traversal in the harness and every chain walk of the library '
+    '(through the match callback) validates {state,id,checksum} of every node it meets, also after heavy-tailed delays inside '
+    'the section. Bucket arrays, split counters, resize work items and struct cds_lfht come from a recording guard-page '
+    'cds_lfht_alloc (PROT_NONE for good on release, never reused; the mmap back end has its own PROT_NONE discard): use after '
+    'release / before allocation faults and the crash handler names the object; double release is reported; cds_lfht_destroy '
+    'on emptied tables (with and without AUTO_RESIZE work still queued) from a thread outside any section, then the struct '
+    'itself on guard pages. non-trivial = node life whose winning removal overlapped >= 1 other removal attempt on the same node '
+    '(in-flight flag per node for del/replace, per key for add_replace); distinct = (winner operation, set of racing operation '
+    'kinds, 1/2/3+ racers, resize in progress, bucket allocator / memory allocator).')
+C07_ASSUME = [
+    'x86-64 TSO; gcc sanitizer runtimes',
+    'overlap of removal attempts is detected with relaxed in-flight flags (evidence only, never part of a verdict)',
+    'qsbr: cds_lfht_resize / cds_lfht_destroy are called from registered OFFLINE threads (README mutex rule); all other '
+    'operations from online threads that report quiescent states between operations',
+    'every case with a finite quarantine: 65536 retired nodes (plain builds); guard-page subset 6% of the nodes',
+    'no hook point exists inside cds_lfht_lookup (URCU_VP_HT_LOOKUP_STEP is declared but not placed): delays inside library '
+    'traversals are injected from the match callback and by chaos signals instead',
+]
+
+
+@prop('C07', 'Hash table: removed node has one owner, unreachable after a grace period', 'exploration', C07_RULE, C07_ASSUME)
 def c07(tier, seed):
-    return [_c('own-memb', 'memb', 'plain', 'own', 'C07', ['--rounds=4'])]
+    q = tier == 'quick'
+    s = 1 if q else 25
+    out = []
+
+    def own(name, fl, var, rounds, ops, extra=(), cpus=6):
+        out.append(_c(name, fl, var, 'own', 'C07', ['--rounds=%d' % (rounds * s), '--cont-ops=%d' % ops, '--cont=7', '--walk=2',
+                                                    '--tun-commit-order=2', '--tun-part-order=3'] + list(extra), cpus=cpus, scale=s))
+
+    own('own-memb', 'memb', 'plain', 36, 25000)
+    own('own-memb-sig', 'memb', 'plain', 24, 20000, ['--sig=1', '--hook-prob=0.004'])
+    own('own-qsbr', 'qsbr', 'plain', 24, 25000)
+    own('own-memb-asan', 'memb', 'asan', 10, 8000)
+    own('own-qsbr-asan', 'qsbr', 'asan', 8, 8000)
+    own('own-memb-tsan', 'memb', 'tsan', 6, 4000)
+    # bucket arrays released by shrink: walkers hold iterators across delays while levels are unlinked and freed
+    out.append(_c('shrink-memb', 'memb', 'plain', 'resize', 'C07',
+                  ['--rounds=%d' % (24 * s), '--res-calls=40', '--walk=2', '--cont=1', '--upd=1', '--sig=1', '--walk-delay=0.02',
+                   '--tun-commit-order=2', '--tun-part-order=3'], scale=s))
+    out.append(_c('shrink-qsbr', 'qsbr', 'plain', 'resize', 'C07',
+                  ['--rounds=%d' % (16 * s), '--res-calls=40', '--walk=2', '--cont=1', '--upd=1', '--walk-delay=0.02',
+                   '--tun-commit-order=2', '--tun-part-order=3'], scale=s))
+    out.append(_c('shrink-memb-asan', 'memb', 'asan', 'resize', 'C07',
+                  ['--rounds=%d' % (8 * s), '--res-calls=25', '--walk=2', '--cont=1', '--upd=1', '--walk-delay=0.02',
+                   '--tun-commit-order=2', '--tun-part-order=3'], scale=s))
+    # the table after destroy
+    for fl, var, rounds in (('memb', 'plain', 150), ('qsbr', 'plain', 60), ('memb', 'asan', 40), ('memb', 'tsan', 12)):
+        out.append(_c('destroy-%s%s' % (fl, '' if var == 'plain' else '-' + var), fl, var, 'destroy', 'C07',
+                      ['--rounds=%d' % (rounds * s), '--upd=3', '--upd-ops=2500', '--pop-hi=900', '--tun-commit-order=2',
+                       '--tun-part-order=3'], cpus=5, scale=s))
+    if not q:
+        own('own-mb', 'mb', 'plain', 12, 25000)
+        own('own-bp', 'bp', 'plain', 12, 25000)
+        own('own-qsbr-tsan', 'qsbr', 'tsan', 3, 4000)
+        own('own-memb-builtins', 'memb', 'builtins', 12, 25000)
+        own('own-memb-stock', 'memb', 'plain', 12, 25000, ['--tun-commit-order=10', '--tun-part-order=12'])
+        for fl in ('mb', 'bp'):
+            out.append(_c('shrink-%s' % fl, fl, 'plain', 'resize', 'C07',
+                          ['--rounds=%d' % (8 * s), '--res-calls=40', '--walk=2', '--cont=1', '--upd=1', '--walk-delay=0.02',
+                           '--tun-commit-order=2', '--tun-part-order=3'], scale=s))
+            out.append(_c('destroy-%s' % fl, fl, 'plain', 'destroy', 'C07',
+                          ['--rounds=%d' % (30 * s), '--upd=3', '--upd-ops=2500', '--pop-hi=900', '--tun-commit-order=2',
+                           '--tun-part-order=3'], cpus=5, scale=s))
+    return out
 
 
-@prop('C09', 'Hash table resize terminates, preserves contents, respects bucket bounds', 'exploration', 'tbd', [])
+C09_RULE = (
+    'one evaluation = one resize: an explicit cds_lfht_resize() call (request list 0,1,2,3,5,6,7,1000, 2^k, 2^k+-1, max-1, max, '
+    'max+1, 2*max, max/2(+1), ULONG_MAX(-1), 2^63+1 x start sizes x bucket allocators order/chunk/mmap/library default x memory from '
+    'libc / recording guard-page allocator / recording malloc allocator; 1-3 concurrent callers) or one iteration of the lazy '
+    'resize loop in the library\'s worker that changed the size (chain-length grow with AUTO_RESIZE; node-counter grow/shrink with '
+    'ACCOUNTING, COUNT_COMMIT_ORDER lowered and stock). Termination is decided on steps: the same (size, resize_target) pair with '
+    'size != target seen at the top of the resize loop > 10000 times in a row inside one call is a violation '
+    '(key lfht:resize:non-power-of-two-target-never-reached when the target is not a power of two), the call is not waited for; '
+    'the stuck-state watchdog (no progress of any thread or hook point for 30 s with a call in flight) is the backstop and names '
+    'the qsbr worker-vs-offline-caller deadlock (hang:lfht:qsbr:worker-online-on-resize_mutex). Contents: resident keys inserted '
+    'before the round and never removed must be found by every lookup of the dedicated reader threads and exactly once by every '
+    'complete first/next traversal, during and after every resize; updaters must find their own nodes. Bounds: ht->size (internal '
+    'header) before every reader lookup, at every loop iteration, before every publish, after every shrink store, after every call '
+    'and at quiescence: power of two in [1, max_nr_buckets]; bucket nodes live in the recording allocator never exceed '
+    'max(max_nr_buckets, min_nr_alloc_buckets); with one resizer and no AUTO_RESIZE the size after the call equals the clamped, '
+    'rounded-up request. Memory: guard pages / PROT_NONE discard / ASan make any use of bucket memory before allocation or after '
+    'release fault while walkers hold iterators across heavy-tailed delays. Destroy: emptied tables are destroyed at once, with lazy '
+    'resize work still queued or running, from a thread outside any section (offline for qsbr); completion = the table struct '
+    'comes back to the allocator. non-trivial = resize during which >= 1 update and >= 1 lookup of other threads completed; '
+    'distinct = (from-order, to-order, direction, bucket allocator / memory allocator, lazy / explicit, partitioned / single).')
+C09_ASSUME = [
+    'x86-64; gcc sanitizer runtimes',
+    'qsbr: cds_lfht_resize / cds_lfht_destroy are called from registered OFFLINE threads (README mutex rule) for the verdict',
+    'max_nr_buckets = 0 ("infinite", order allocator) only with requests <= 64 (memory)',
+    'tables up to 2^17 buckets (partitioned path at stock MIN_PARTITION_PER_THREAD_ORDER = 12); MIN_PARTITION_PER_THREAD_ORDER '
+    'lowered to 3 in the small-table cases for volume',
+    'allocations the library never hands back after destroy are counted (allocations_not_returned), not judged',
+]
+
+
+@prop('C09', 'Hash table resize terminates, preserves contents, respects bucket bounds', 'exploration', C09_RULE, C09_ASSUME)
 def c09(tier, seed):
-    return [_c('resize-memb', 'memb', 'plain', 'resize', 'C09', ['--rounds=4'])]
+    q = tier == 'quick'
+    s = 1 if q else 20
+    out = []
+
+    def rz(name, fl, var, rounds, calls, extra=(), cpus=6, low=True):
+        tun = ['--tun-commit-order=2', '--tun-part-order=3'] if low else []
+        out.append(_c(name, fl, var, 'resize', 'C09', ['--rounds=%d' % (rounds * s), '--res-calls=%d' % calls, '--res=3', '--upd=2',
+                                                       '--resident=2', '--walk=1', '--cont=1'] + tun + list(extra),
+                      cpus=cpus, scale=s))
+
+    rz('resize-memb', 'memb', 'plain', 60, 40)
+    rz('resize-memb-stock', 'memb', 'plain', 10, 30, ['--flags=3', '--pop-hi=24000', '--max-order=12'], low=False)
+    rz('resize-memb-auto', 'memb', 'plain', 30, 40, ['--flags=3', '--pop-hi=2500'])
+    rz('resize-qsbr', 'qsbr', 'plain', 30, 40)
+    rz('resize-qsbr-auto', 'qsbr', 'plain', 24, 40, ['--flags=1', '--pop-hi=1500'])
+    rz('resize-memb-asan', 'memb', 'asan', 14, 25)
+    rz('resize-qsbr-asan', 'qsbr', 'asan', 10, 25)
+    rz('resize-memb-tsan', 'memb', 'tsan', 6, 12)
+    out.append(_c('big-memb', 'memb', 'plain', 'big', 'C09', ['--rounds=%d' % (3 * s), '--res-calls=10', '--res=2', '--upd=2',
+                                                              '--resident=1', '--walk=1'], cpus=8, scale=s))
+    out.append(_c('big-qsbr', 'qsbr', 'plain', 'big', 'C09', ['--rounds=%d' % (2 * s), '--res-calls=8', '--res=1', '--upd=2',
+                                                              '--resident=1', '--walk=1'], cpus=8, scale=s))
+    for fl, var, rounds in (('memb', 'plain', 150), ('qsbr', 'plain', 60), ('memb', 'asan', 40)):
+        out.append(_c('destroy-%s%s' % (fl, '' if var == 'plain' else '-' + var), fl, var, 'destroy', 'C09',
+                      ['--rounds=%d' % (rounds * s), '--upd=3', '--upd-ops=2500', '--pop-hi=900', '--res=1', '--tun-commit-order=2',
+                       '--tun-part-order=3'], cpus=5, scale=s))
+    if not q:
+        for fl in ('mb', 'bp'):
+            rz('resize-%s' % fl, fl, 'plain', 20, 40)
+            rz('resize-%s-auto' % fl, fl, 'plain', 12, 40, ['--flags=3', '--pop-hi=2500'])
+            out.append(_c('big-%s' % fl, fl, 'plain', 'big', 'C09', ['--rounds=%d' % s, '--res-calls=8', '--res=1', '--upd=2',
+                                                                     '--resident=1', '--walk=1'], cpus=8, scale=s))
+            out.append(_c('destroy-%s' % fl, fl, 'plain', 'destroy', 'C09',
+                          ['--rounds=%d' % (30 * s), '--upd=3', '--upd-ops=2500', '--pop-hi=900', '--res=1', '--tun-commit-order=2',
+                           '--tun-part-order=3'], cpus=5, scale=s))
+        rz('resize-qsbr-tsan', 'qsbr', 'tsan', 3, 12)
+        rz('resize-memb-builtins', 'memb', 'builtins', 20, 40)
+        out.append(_c('big-memb-asan', 'memb', 'asan', 'big', 'C09', ['--rounds=%d' % s, '--res-calls=6', '--res=1', '--upd=1',
+                                                                      '--resident=1', '--walk=1'], cpus=8, scale=s))
+        out.append(_c('big-memb-lowpart', 'memb', 'plain', 'big', 'C09', ['--rounds=%d' % (2 * s), '--res-calls=10', '--res=2', '--upd=2',
+                                                                          '--resident=1', '--walk=1', '--tun-part-order=8'],
+                      cpus=8, scale=s))
+    return out
